@@ -258,4 +258,146 @@ theorem C16.keywords_never_ident (s : State) (h : (next s).1.type = IDENT) :
     · exact wf.elim
     · exact wf.elim
 
+/-! ### (6) interning -/
+
+theorem idx_lt_iff (k : Key) : ∀ tb : Table, idx k tb < tb.length ↔ k ∈ tb := by
+  intro tb
+  induction tb with
+  | nil => simp [idx]
+  | cons x xs ih =>
+    unfold idx
+    by_cases h : x = k
+    · simp [h]
+    · simp only [h, ↓reduceIte, List.length_cons, Nat.add_lt_add_iff_right, ih, List.mem_cons]
+      constructor
+      · exact Or.inr
+      · rintro (e | e)
+        · exact absurd e.symm h
+        · exact e
+
+theorem idx_getElem? (k : Key) : ∀ tb : Table, k ∈ tb → tb[idx k tb]? = some k := by
+  intro tb
+  induction tb with
+  | nil => intro h; cases h
+  | cons x xs ih =>
+    intro hm
+    unfold idx
+    by_cases h : x = k
+    · simp [h]
+    · simp only [h, ↓reduceIte, List.getElem?_cons_succ]
+      cases hm with
+      | head => exact absurd rfl h
+      | tail _ hm => exact ih hm
+
+theorem idx_append (k : Key) (ext : Table) : ∀ tb : Table, k ∈ tb → idx k (tb ++ ext) = idx k tb := by
+  intro tb
+  induction tb with
+  | nil => intro h; cases h
+  | cons x xs ih =>
+    intro hm
+    simp only [List.cons_append]
+    unfold idx
+    by_cases h : x = k
+    · simp [h]
+    · simp only [h, ↓reduceIte, Nat.add_right_cancel_iff]
+      cases hm with
+      | head => exact absurd rfl h
+      | tail _ hm => exact ih hm
+
+theorem idx_append_new (k : Key) : ∀ tb : Table, k ∉ tb → idx k (tb ++ [k]) = tb.length := by
+  intro tb
+  induction tb with
+  | nil => intro _; simp [idx]
+  | cons x xs ih =>
+    intro hm
+    simp only [List.cons_append]
+    unfold idx
+    have h : x ≠ k := fun e => hm (e ▸ List.mem_cons_self)
+    simp only [h, ↓reduceIte, List.length_cons, Nat.add_right_cancel_iff]
+    exact ih (fun e => hm (List.mem_cons_of_mem _ e))
+
+/-- `Intern`: the pointer returned is the slot of the *first* occurrence of the key in the
+resulting table, which extends the old one -/
+theorem intern_spec (tb : Table) (k : Key) :
+    (intern tb k).1 = .slot (idx k (intern tb k).2) ∧ k ∈ (intern tb k).2 ∧ ∃ ext, (intern tb k).2 = tb ++ ext := by
+  unfold intern
+  simp only []
+  by_cases h : idx k tb < tb.length
+  · simp only [h, ↓reduceIte]
+    exact ⟨by first | trivial | rfl, (idx_lt_iff k tb).mp h, [], by simp⟩
+  · simp only [h, ↓reduceIte]
+    have hn : k ∉ tb := fun e => h ((idx_lt_iff k tb).mpr e)
+    exact ⟨by rw [idx_append_new k tb hn], by simp, [k], rfl⟩
+
+/-- (6) interning uniqueness: whatever was interned in between (`ext`), interning `k2` after
+`k1` returns the same pointer iff the keys `(type, literal)` are equal -/
+theorem C16.intern_unique (tb : Table) (k1 k2 : Key) (ext : Table) :
+    (intern ((intern tb k1).2 ++ ext) k2).1 = (intern tb k1).1 ↔ k2 = k1 := by
+  obtain ⟨p1, m1, _⟩ := intern_spec tb k1
+  obtain ⟨p2, m2, e2, he2⟩ := intern_spec ((intern tb k1).2 ++ ext) k2
+  rw [p1, p2]
+  have hm1 : k1 ∈ (intern ((intern tb k1).2 ++ ext) k2).2 := by
+    rw [he2]; simp [m1]
+  have i1 : idx k1 (intern ((intern tb k1).2 ++ ext) k2).2 = idx k1 (intern tb k1).2 := by
+    rw [he2, List.append_assoc]; exact idx_append k1 _ _ m1
+  constructor
+  · intro h
+    have h : idx k2 (intern ((intern tb k1).2 ++ ext) k2).2 = idx k1 (intern tb k1).2 := by
+      injection h
+    rw [← i1] at h
+    have a := idx_getElem? k2 _ m2
+    have b := idx_getElem? k1 _ hm1
+    rw [h, b] at a
+    injection a with a
+    exact a.symm
+  · intro h
+    subst h
+    rw [i1]
+
+/-- the interning table built by `Init` holds every keyword and two-character operator once -/
+theorem C16.initTable_nodup : initTable.Nodup := by decide
+
+/-- full interning statement over a whole token stream (any well-formed tokens, any table that
+extends the one built by `Init`): two calls return the same pointer iff type and literal agree -/
+def C16.InterningStatement : Prop :=
+  ∀ (ts : List Tok), (∀ t ∈ ts, t.WF) → ∀ (ext : Table) (i j : Nat) (hi : i < ts.length) (hj : j < ts.length),
+    ((resolveAll (initTable ++ ext) ts)[i]? = (resolveAll (initTable ++ ext) ts)[j]?
+      ↔ (ts[i].type, ts[i].lit) = (ts[j].type, ts[j].lit))
+
+/-- proved part of `C16.InterningStatement`: the `Intern` calls themselves (every value token:
+numbers, strings, comments, illegal bytes, non-keyword identifiers), with anything interned in
+between.  Missing for the full statement: the induction over `resolveAll` for streams that mix
+`Intern` with the constant pointers (`ConstantTokenChar(2)`, keywords, `EOLT/EOFT`), whose keys
+are disjoint from interned keys by `Tok.WF` and the finite tables. -/
+theorem C16.interning_partial (tb : Table) (k1 k2 : Key) (ext : Table) :
+    (intern ((intern tb k1).2 ++ ext) k2).1 = (intern tb k1).1 ↔ k2 = k1 :=
+  C16.intern_unique tb k1 k2 ext
+
+/-- every token returned by the lexer is well-formed (the hypothesis of `C16.InterningStatement`) -/
+theorem C16.next_wf (s : State) : (next s).1.WF := by
+  cases C16.cases s with
+  | inl m => rw [m.1]; unfold Tok.WF eolEof; cases s.lineMode <;> simp
+  | inr ok => exact ok.wf
+
+/-! ### non-vacuity: the three repaired inputs, evaluated by the kernel -/
+
+def lexTypes (input : List UInt8) (lineMode : Bool) (k : Nat) : List (TType × Bytes × Nat) :=
+  (List.range k).map fun i =>
+    let r := next (iter i (State.new input.toArray lineMode))
+    (r.1.type, r.1.lit, r.2.pos)
+
+/-- `1e+ x` : INT "1" ends at 1, then `e`, `+`, `x`, EOF (was: INT "1" ending at 3) -/
+example : lexTypes [49, 101, 43, 32, 120] false 5 =
+    [(INT, [49], 1), (IDENT, [101], 2), (PLUS, [43], 3), (IDENT, [120], 5), (EOF, [], 5)] := by decide +kernel
+
+/-- `.5.` : FLOAT ".5" ends at 2, then DOT (was: FLOAT "." ending at 2) -/
+example : lexTypes [46, 53, 46] false 3 = [(FLOAT, [46, 53], 2), (DOT, [46], 3), (EOF, [], 3)] := by decide +kernel
+
+/-- `a\0b` in line mode: IDENT, then EOL for ever (was: a, EOL, b, EOL) -/
+example : lexTypes [97, 0, 98] true 4 = [(IDENT, [97], 1), (EOL, [], 1), (EOL, [], 1), (EOL, [], 1)] := by decide +kernel
+
+/-- keywords and identifiers -/
+example : lexTypes [105, 102, 32, 105, 102, 102] false 3 = [(IF, [105, 102], 2), (IDENT, [105, 102, 102], 6), (EOF, [], 6)] := by
+  decide +kernel
+
 end Grol.Lexer
